@@ -8,18 +8,20 @@ From PG Require Import Lib.Num Lib.Py Gen.UnitsGen1.
 Open Scope string_scope.
 Section Oracle.
 Variable N : Num.
-Record adsorbate := mkAds { a_psat_Pa : option N; a_M : option N; a_rho_l : option N; a_rho_g : option N;
-                            a_rhom_l : option N; a_rhom_g : option N }.
+(* every temperature-dependent property is a FUNCTION of the temperature argument the code passes
+   (None when the call omits it), so that passing the wrong temperature is visible in the model *)
+Record adsorbate := mkAds { a_psat_Pa : option N -> option N; a_M : option N; a_rho_l : option N -> option N;
+                            a_rho_g : option N -> option N; a_rhom_l : option N -> option N; a_rhom_g : option N -> option N }.
 Record material := mkMat { m_density : option N; m_molar_mass : option N }.
 Definition oget (x : option N) : res N := match x with Some v => Ok v | None => Err CalculationError end.
 Definition ads_molar_mass (a : adsorbate) := oget (a_M a).
-Definition ads_liquid_density (a : adsorbate) (temp : option N) := oget (a_rho_l a).
-Definition ads_gas_density (a : adsorbate) (temp : option N) := oget (a_rho_g a).
-Definition ads_liquid_molar_density (a : adsorbate) (temp : option N) := oget (a_rhom_l a).
-Definition ads_gas_molar_density (a : adsorbate) (temp : option N) := oget (a_rhom_g a).
+Definition ads_liquid_density (a : adsorbate) (temp : option N) := oget (a_rho_l a temp).
+Definition ads_gas_density (a : adsorbate) (temp : option N) := oget (a_rho_g a temp).
+Definition ads_liquid_molar_density (a : adsorbate) (temp : option N) := oget (a_rhom_l a temp).
+Definition ads_gas_molar_density (a : adsorbate) (temp : option N) := oget (a_rhom_g a temp).
 (* sat_p in Pa from the backend or the properties dictionary; then `if unit is not None: c_unit(...)` *)
 Definition ads_saturation_pressure (a : adsorbate) (temp : option N) (py_unit : option string) : res N :=
-  bind (oget (a_psat_Pa a)) (fun p =>
+  bind (oget (a_psat_Pa a temp)) (fun p =>
     match py_unit with
     | None => Ok p
     | Some _ => c_unit N (_PRESSURE_UNITS N) p (Some "Pa") py_unit 1%Z
@@ -27,7 +29,13 @@ Definition ads_saturation_pressure (a : adsorbate) (temp : option N) (py_unit : 
 (* Material.density / .molar_mass are properties.get(...) : None when absent; arithmetic on None -> TypeError *)
 Definition mat_density (m : material) : res N := match m_density m with Some v => Ok v | None => Err TypeError end.
 Definition mat_molar_mass (m : material) : res N := match m_molar_mass m with Some v => Ok v | None => Err TypeError end.
+(* the adsorbate seen at one temperature: constant functions *)
+Definition ads_const (p : option N) (M : option N) (rl rg rml rmg : option N) : adsorbate :=
+  mkAds (fun _ => p) M (fun _ => rl) (fun _ => rg) (fun _ => rml) (fun _ => rmg).
+Definition at_temp (a : adsorbate) (temp : option N) : adsorbate :=
+  ads_const (a_psat_Pa a temp) (a_M a) (a_rho_l a temp) (a_rho_g a temp) (a_rhom_l a temp) (a_rhom_g a temp).
 End Oracle.
+Arguments ads_const {N}. Arguments at_temp {N}.
 Arguments a_psat_Pa {N}. Arguments a_M {N}. Arguments a_rho_l {N}. Arguments a_rho_g {N}.
 Arguments a_rhom_l {N}. Arguments a_rhom_g {N}. Arguments m_density {N}. Arguments m_molar_mass {N}.
 Arguments ads_molar_mass {N}. Arguments ads_liquid_density {N}. Arguments ads_gas_density {N}.
